@@ -238,10 +238,10 @@ func loadBases(fixtures bool) []string {
 	bases := append([]string{}, gen.BaseDocs...)
 	bases = append(bases, gen.FrameDocs...)
 	if fixtures {
-		files, _ := filepath.Glob("/repo/fixtures/validation/*.json")
-		y, _ := filepath.Glob("/repo/fixtures/validation/*.yaml")
+		files, _ := filepath.Glob(repoRoot() + "/fixtures/validation/*.json")
+		y, _ := filepath.Glob(repoRoot() + "/fixtures/validation/*.yaml")
 		files = append(files, y...)
-		p, _ := filepath.Glob("/repo/fixtures/petstore/*.json")
+		p, _ := filepath.Glob(repoRoot() + "/fixtures/petstore/*.json")
 		files = append(files, p...)
 		sort.Strings(files)
 		for _, f := range files {
